@@ -131,6 +131,30 @@ def one_scenario(ctx, res, rng, k):
     broken_pool = BROKEN_POOL
     if not broken_pool:
         return None
+    if k % 4 == 0:
+        # error-free pages of every section shape: all of their notes are indexed (also sections that precede the first H1)
+        sd = ctx.tmp / "shapes"
+        sd.mkdir(parents=True, exist_ok=True)
+        shapes = {
+            "h2first.zo": "# T\n\n======================== Sec\n- note a\no note b\n",
+            "h2thenh1.zo": "# T\n\n======================== S\n- a\n\n++++++++++++++++ Deep\nx b2\n\n################################ H\n- b\n",
+            "notes_then_h2.zo": "# T\n\n- top\n\n======================== S\n- in s\n",
+            "h1only.zo": "# T\n\n################################ H\n- c\n\n======================== S2\n- d\n",
+        }
+        G.write_dir(sd, shapes)
+        Z.clear_engine_cache()
+        with freeze_time(dt.datetime(*TODAY, 12, 0)):
+            rc0, _, _ = Z.zorg_main(sd, "db", "create", config=cfg)
+        res.evaluations += 1
+        res.count("section_shape_dirs")
+        per_page = {}
+        for r in G.dump_index(sd) if rc0 == 0 else []:
+            per_page[r["path"]] = per_page.get(r["path"], 0) + 1
+        for rel, text in shapes.items():
+            want = sum(1 for l in text.split("\n") if l[:2] in ("- ", "o ", "x "))
+            if rc0 != 0 or per_page.get(rel, 0) != want:
+                res.failures.append(C.Failure(f"error-free page {rel} ({want} notes) has {per_page.get(rel, 0)} notes in the index after db create (rc={rc0})", {"kind": "notes_not_indexed", "page": rel, "text": text}))
+                break
     if zdir.exists():
         shutil.rmtree(zdir)
     zdir.mkdir(parents=True)
